@@ -366,7 +366,7 @@ def check():
                 o.inconc("UNCONFIRMED: solver found a frame violation (%s) that the real oal-cli round trip does not show" % bad_fields[:4])
         elif diffs:
             # solver says the frame property holds but the real binary disagrees: the encoding misses something
-            o.inconc("translator validation failed: real oal-cli --base output differs from base at %s although all queries are unsat" % diffs[:6])
+            o.oracle_only("real oal-cli --base output differs from base at %s although all queries are unsat" % diffs[:6], rdir)
     return o.finish()
 
 
